@@ -9,7 +9,10 @@ Specification monitor: `MakoModel/Cache/Spec.lean` (`replay` and the five checks
 the build of this module: `gen_regen_ok`, `gen_prefix_slice`, `gen_key_attr_excluded`, `gen_key_attr_has_prefix`,
 `gen_merge_order`, `gen_defname_kw`, `gen_inv_body`, `gen_inv_def`, `gen_disabled_bypasses`, `gen_cache_id`, `gen_names`,
 `gen_inline_passes_buffered`, `gen_beaker_defines_set`, `gen_context_added_to_copy`, `gen_beaker_starttime`,
-`gen_block_result_written`.
+`gen_block_result_written`, `gen_decorator_fetches_writer`, `gen_local_is_declaring_template`.
+
+Inheritance: a section uses the cache of the template that DECLARES it (`Hdr.home`, `eff`); the call tree of an
+inheriting template is its base's body with its own body at `${next.body()}`.  Call sites: `Site` (`capture` included).
 
 History-level theorems quantify over **every** world (back end, list of templates) and **every** history
 `List Op`; they are proved by induction over the history and over the call tree, through the invariants of
@@ -160,17 +163,19 @@ theorem store_is_replayed_spec (w : World R) (hist : List Op) :
 /-- a cached page that is hit is the whole response -/
 theorem render_replays_page (w : World R) (st : St R) (t : Nat) (tm : Tmpl) (c : Env) (v : Str)
     (ht : w.tmpls[t]? = some tm) (hk : tm.page.kind = .page) (hc : tm.page.cached = true)
-    (hb : tm.page.buffered = false) (hen : st.enabled t = true)
+    (hb : tm.page.buffered = false) (hhome : tm.page.home = none) (hen : st.enabled t = true)
     (hs : visible w.be st t (backendKey ⟨w.be, tm, t, c⟩ st tm.page c) = some v) :
     (step w st (.render t c)).1 = .out v := by
   have hsc : scope (⟨w.be, tm, t, c⟩ : Params R) tm.page c none = c := by
     simp [scope, hk, isInline]
-  have := run_inv_hit ⟨w.be, tm, t, c⟩ c tm.page none false tm.body .nil st v hc hen (by rw [hsc]; exact hs)
+  have heff : eff (⟨w.be, tm, t, c⟩ : Params R) tm.page = ⟨w.be, tm, t, c⟩ := by simp [eff, hhome]
+  have := run_inv_hit ⟨w.be, tm, t, c⟩ c tm.page none .plain tm.body .nil st v hc (by rw [heff]; exact hen)
+    (by rw [hsc, heff]; exact hs)
   simp only [step, ht, this]
   simp [run, deliver, isCall, hk, returnsValue, hb]
 
 example : (exTm "/a-b.html" "first ").page.kind = .page ∧ (exTm "/a-b.html" "first ").page.cached = true ∧
-    (exTm "/a-b.html" "first ").page.buffered = false ∧
+    (exTm "/a-b.html" "first ").page.buffered = false ∧ (exTm "/a-b.html" "first ").page.home = none ∧
     visible exW.be (runHist exW [.render 0 (ctx "1")]) 0
       (backendKey ⟨exW.be, exTm "/a-b.html" "first ", 0, ctx "2"⟩ (runHist exW [.render 0 (ctx "1")])
         (exTm "/a-b.html" "first ").page (ctx "2")) = some "first 1".toList := by decide +kernel
@@ -208,9 +213,9 @@ example : exF.param = some "p".toList := rfl
 /-- the back end is called with the selected key, under the template's cache id, before anything else happens -/
 theorem backend_called_with_selected_key (P : Params R) (st : St R) (h : Hdr) (env' : Env) :
     (afterCall P st h env').trace =
-      .call P.tid .goc (moduleId P.tm.uri) (keyOf h env') (sentKw P st h env') :: st.trace ∧
-    backendKey P st h env' = (moduleId P.tm.uri, P.be.regionOf
-      (getCacheKw P.tm.cacheArgs (st.regions P.tid) (fname h) (sectionKw P.tm.page h env')).1, keyOf h env') :=
+      .call (eff P h).tid .goc (moduleId (eff P h).tm.uri) (keyOf h env') (sentKw P st h env') :: st.trace ∧
+    backendKey P st h env' = (moduleId (eff P h).tm.uri, P.be.regionOf
+      (getCacheKw (eff P h).tm.cacheArgs (st.regions (eff P h).tid) (fname h) (sectionKw (eff P h).tm.page h env')).1, keyOf h env') :=
   ⟨rfl, rfl⟩
 
 /-! ## arguments -/
@@ -219,14 +224,14 @@ theorem backend_called_with_selected_key (P : Params R) (st : St R) (h : Hdr) (e
     keyword argument is the section's own `cache_<k>` if it has one, else the `<%page>` tag's, else the Template's
     `cache_args[k]`. -/
 theorem args_precedence (P : Params R) (st : St R) (h : Hdr) (env' : Env) (k : Str)
-    (hfirst : aGet (st.regions P.tid) (fname h) = none) :
-    aGet (getCacheKw P.tm.cacheArgs (st.regions P.tid) (fname h) (sectionKw P.tm.page h env')).1 k =
+    (hfirst : aGet (st.regions (eff P h).tid) (fname h) = none) :
+    aGet (getCacheKw (eff P h).tm.cacheArgs (st.regions (eff P h).tid) (fname h) (sectionKw (eff P h).tm.page h env')).1 k =
       match aGetLast (evalArgs env' (cacheAttrs h.attrs)) k with
       | some v => some v
       | none =>
-        match aGetLast (evalArgs env' (cacheAttrs P.tm.page.attrs)) k with
+        match aGetLast (evalArgs env' (cacheAttrs (eff P h).tm.page.attrs)) k with
         | some v => some v
-        | none => aGet P.tm.cacheArgs k := by
+        | none => aGet (eff P h).tm.cacheArgs k := by
   rw [getCacheKw_fst, hfirst]
   simp only [ite_self]
   rw [aGet_aUpdate_nodup _ _ _ (nodup_sectionKw _ _ _)]
@@ -235,7 +240,7 @@ theorem args_precedence (P : Params R) (st : St R) (h : Hdr) (env' : Env) (k : S
   cases aGetLast (evalArgs env' (cacheAttrs h.attrs)) k with
   | some v => rfl
   | none =>
-    cases aGetLast (evalArgs env' (cacheAttrs P.tm.page.attrs)) k with
+    cases aGetLast (evalArgs env' (cacheAttrs (eff P h).tm.page.attrs)) k with
     | some v => rfl
     | none => simp [aGet]
 
@@ -270,11 +275,11 @@ example : aGetLast (evalArgs [] (cacheAttrs exF.attrs)) timeoutKey = some (.int 
 /-- the rendering context is added under `context` (`contextKw`, see `gen_names`) iff the implementation asks for it
     (`pass_context`), unless an argument of that name was given; nothing else is touched -/
 theorem context_iff_pass_context (P : Params R) (st : St R) (h : Hdr) (env' : Env)
-    (hno : aGet (getCacheKw P.tm.cacheArgs (st.regions P.tid) (fname h) (sectionKw P.tm.page h env')).1
+    (hno : aGet (getCacheKw (eff P h).tm.cacheArgs (st.regions (eff P h).tid) (fname h) (sectionKw (eff P h).tm.page h env')).1
       contextKw = none) :
     aGet (sentKw P st h env') contextKw = (if P.be.passContext then some .ctx else none) ∧
     ∀ k, k ≠ contextKw → aGet (sentKw P st h env') k =
-      aGet (getCacheKw P.tm.cacheArgs (st.regions P.tid) (fname h) (sectionKw P.tm.page h env')).1 k := by
+      aGet (getCacheKw (eff P h).tm.cacheArgs (st.regions (eff P h).tid) (fname h) (sectionKw (eff P h).tm.page h env')).1 k := by
   unfold sentKw addCtx
   constructor
   · cases P.be.passContext with
@@ -285,7 +290,7 @@ theorem context_iff_pass_context (P : Params R) (st : St R) (h : Hdr) (env' : En
     | false => rfl
     | true =>
       simp only [if_true, aGet_aSetDefault]
-      cases aGet (getCacheKw P.tm.cacheArgs (st.regions P.tid) (fname h) (sectionKw P.tm.page h env')).1 k with
+      cases aGet (getCacheKw (eff P h).tm.cacheArgs (st.regions (eff P h).tid) (fname h) (sectionKw (eff P h).tm.page h env')).1 k with
       | some x => rfl
       | none => simp; intro e; exact absurd e.symm hk
 
@@ -294,8 +299,8 @@ example : aGet (getCacheKw exTmF.cacheArgs ((St.init exWF).regions 0) (fname exF
 
 /-- once a callable has a `_def_regions` entry, that entry is what the back end gets -/
 theorem args_frozen (P : Params R) (st : St R) (h : Hdr) (env' : Env) (r : Kw) (hne : fname h ≠ [])
-    (hm : aGet (st.regions P.tid) (fname h) = some r) :
-    (getCacheKw P.tm.cacheArgs (st.regions P.tid) (fname h) (sectionKw P.tm.page h env')).1 = r := by
+    (hm : aGet (st.regions (eff P h).tid) (fname h) = some r) :
+    (getCacheKw (eff P h).tm.cacheArgs (st.regions (eff P h).tid) (fname h) (sectionKw (eff P h).tm.page h env')).1 = r := by
   rw [getCacheKw_fst, hm]; simp [hne]
 
 example : fname exF ≠ [] ∧ (aGet ((runHist exWF [.render 0 (ctx "1")]).regions 0) (fname exF)).isSome = true := by
@@ -324,7 +329,7 @@ entry.  The guard of `args_every_render_partial` is exactly "no such early inval
     scope of the section's first cached render. -/
 theorem args_every_render_partial (w : World R) (hist : List Op)
     (hg : noEarlyInvalidation w (St.init w) hist = true) : MemoFromRender w (runHist w hist) :=
-  runFrom_memo_late w hist _ hg (fun _ _ _ _ _ h => by simp [St.init, aGet] at h)
+  runFrom_memo_late w hist _ hg (fun _ _ _ h => by simp [St.init, aGet] at h)
 
 /-- the same from any state whose `_def_regions` entries already are such arguments (e.g. the state after a guarded
     history): the guard is evaluated from that state -/
@@ -373,12 +378,19 @@ theorem args_every_render_counterexample :
   intro hm
   have hreg : aGet ((runHist exWF [.invalidateDef 0 "f".toList]).regions 0) "render_f".toList = some exTmF.cacheArgs := by
     decide +kernel
-  obtain ⟨h, hh, env, hf, hr⟩ := hm 0 exTmF "render_f".toList _ (by rfl) hreg
+  obtain ⟨t', tm', c, h, env, ht', hh, _, hf, hr⟩ := hm 0 "render_f".toList _ hreg
+  have htm' : tm' = exTmF := by
+    cases t' with
+    | zero => simp [exWF] at ht'; exact ht'.symm
+    | succ n => simp [exWF] at ht'
+  subst htm'
   have hh' : h = exTmF.page ∨ h = exF := by
     simpa [Tmpl.tree, hdrs, exTmF, exFBody] using hh
   rcases hh' with rfl | rfl
   · exact absurd hf (by decide +kernel)
-  · have : aGet (aUpdate exTmF.cacheArgs (sectionKw exTmF.page exF env)) "timeout".toList = some (.int 30) := by
+  · have heff : eff (⟨exWF.be, exTmF, t', c⟩ : Params (Option ArgV)) exF = ⟨exWF.be, exTmF, t', c⟩ := rfl
+    rw [heff] at hr
+    have : aGet (aUpdate exTmF.cacheArgs (sectionKw exTmF.page exF env)) "timeout".toList = some (.int 30) := by
       rw [aGet_aUpdate_nodup _ _ _ (nodup_sectionKw _ _ _)]
       unfold sectionKw
       rw [aGet_aUpdate]
@@ -435,12 +447,12 @@ example : exW.tmpls[0]? = some (exTm "/a-b.html" "first ") := rfl
     scope: invalidation and section agree on cache id, region (both read the callable's `_def_regions` entry) and key. -/
 theorem invalidate_forces_miss (P : Params R) (st : St R) (h : Hdr) (env' : Env)
     (hk : aGet h.attrs cacheKeyAttr = none) (hne : fname h ≠ []) :
-    let st' := invalidateCore P.be P.tm P.tid st (fname h) [] (fname h)
+    let st' := invalidateCore P.be (eff P h).tm (eff P h).tid st (fname h) [] (fname h)
     st'.store (backendKey P st' h env') = none := by
-  have hmemo := getCacheKw_memo P.tm.cacheArgs (st.regions P.tid) (fname h) [] hne
+  have hmemo := getCacheKw_memo (eff P h).tm.cacheArgs (st.regions (eff P h).tid) (fname h) [] hne
   simp only [invalidateCore, backendKey, del_store, del_regions, emit_regions, setRegions_regions, if_true]
-  have h1 : (getCacheKw P.tm.cacheArgs (getCacheKw P.tm.cacheArgs (st.regions P.tid) (fname h) []).2 (fname h)
-      (sectionKw P.tm.page h env')).1 = (getCacheKw P.tm.cacheArgs (st.regions P.tid) (fname h) []).1 := by
+  have h1 : (getCacheKw (eff P h).tm.cacheArgs (getCacheKw (eff P h).tm.cacheArgs (st.regions (eff P h).tid) (fname h) []).2 (fname h)
+      (sectionKw (eff P h).tm.page h env')).1 = (getCacheKw (eff P h).tm.cacheArgs (st.regions (eff P h).tid) (fname h) []).1 := by
     rw [getCacheKw_fst, hmemo]; simp [hne]
   rw [h1]
   simp [keyOf, hk]
@@ -465,19 +477,27 @@ theorem invalidate_def_is_callable_name (h : Hdr) :
 /-- **cached_delivers_like_uncached.**  A cached section hands its content over the way the uncached section does:
     returned iff `buffered` (then an expression filter at the call site applies to it; a block's call site writes it),
     written otherwise – for module-level callables and, since `write_inline_def` passes `buffered` on
-    (`gen_inline_passes_buffered`, regenerated from `codegen.py`), for nested defs and anonymous blocks too. -/
+    (`gen_inline_passes_buffered`, regenerated from `codegen.py`), for nested defs and anonymous blocks too; and what it
+    writes goes to the buffer that is on top of the context's buffer stack when it is CALLED (under `capture`: into the
+    captured text), because the decorator fetches the writer itself (`gen_decorator_fetches_writer`). -/
 theorem cached_delivers_like_uncached (h : Hdr) (site : Site) (v : Str) :
     deliver h site v = deliver { h with cached := false } site v := by
   have hg := gen_inline_passes_buffered
-  cases hc : h.cached <;> simp [deliver, returnsValue, hc, hg]
+  have hw := gen_decorator_fetches_writer
+  cases hc : h.cached <;> simp [deliver, returnsValue, hc, hg, hw]
 
 /-- `<%def name="g()" cached="True" buffered="True">` nested in a def, called as `${g() | wrapS}` with content `G`:
     `<G>` cached and uncached; a buffered anonymous block shows its content where it stands (/repo 248d875), cached or not -/
 example :
-    deliver exG true "G".toList = "<G>".toList ∧
-    deliver { exG with cached := false } true "G".toList = "<G>".toList ∧
-    deliver { exG with kind := .anonBlock } false "G".toList = "G".toList ∧
-    deliver { exG with kind := .anonBlock, cached := false } false "G".toList = "G".toList := by decide +kernel
+    deliver exG .filtered "G".toList = "<G>".toList ∧
+    deliver { exG with cached := false } .filtered "G".toList = "<G>".toList ∧
+    deliver { exG with kind := .anonBlock } .plain "G".toList = "G".toList ∧
+    deliver { exG with kind := .anonBlock, cached := false } .plain "G".toList = "G".toList ∧
+    -- `${capture(g) | wrapS}` of the unbuffered cached nested def: what it writes goes to the buffer `capture` pushed
+    deliver { exG with buffered := false } .capturedFiltered "G".toList = "<G>".toList ∧
+    deliver { exG with buffered := false, cached := false } .capturedFiltered "G".toList = "<G>".toList ∧
+    -- `capture` drops what a buffered callable returns
+    deliver exG .captured "G".toList = [] := by decide +kernel
 
 /-- the section's own filter is applied before the value is stored, so a hit replays the filtered text -/
 theorem stored_value_is_filtered (P : Params R) (env' : Env) (h : Hdr) (body : Items) (st : St R) :
@@ -496,10 +516,32 @@ Entries are keyed by (cache id, region, key) and the cache id is the module name
 maps `/a-b.html` and `/a_b.html` to the same id.
 -/
 
-/-- **no_cross_template_service_partial** – hypothesis: the module ids of the world's templates are pairwise distinct. -/
-theorem no_cross_template_service_partial (w : World R) (hist : List Op) (hd : IdsDistinct w) :
+/-- **no_cross_template_service_partial** – hypothesis: the module ids of the world's templates are pairwise distinct
+    (and the call trees name the declaring template of an inherited section truthfully, `HomesOK`).  "The same template"
+    is the template that DECLARES the section: under `<%inherit>` a base template's cached defs and blocks use the base's
+    cache whichever child is rendered (`eff`; `gen_local_is_declaring_template`), so what a child's render is served from
+    the base's sections was put there by the base's sections – in this or another child's render – and never by the
+    child's own sections of the same name or line, nor the other way round. -/
+theorem no_cross_template_service_partial (w : World R) (hist : List Op) (hd : IdsDistinct w) (hw : HomesOK w) :
     traceAll w evOwn (runHist w hist).trace = true :=
-  (runFrom_own w hd hist _ (own_init w)).own
+  (runFrom_own w hd hw hist _ (own_init w)).own
+
+example : HomesOK exWDistinct := homesOK_of_b _ (by decide +kernel)
+
+/-- an inheritance chain (`exWInherit`: two children of one base, all three declare a cached def `side`): the base's
+    `side` runs once for both children and is re-created after `base.cache.invalidate_def('side')` – not after the same
+    call on a child's cache –, each child's own `side` lives in that child's cache under the same key -/
+example :
+    HomesOK exWInherit ∧
+    responses exWInherit (St.init exWInherit)
+      [.render 1 [], .render 2 [], .invalidateDef 1 "side".toList, .render 2 [], .invalidateDef 0 "side".toList, .render 2 []] =
+      [.out "[BC1B]".toList, .out "[BC2B]".toList, .unit, .out "[BC2B]".toList, .unit, .out "[BC2B]".toList] ∧
+    ticksOf (runHist exWInherit
+      [.render 1 [], .render 2 [], .invalidateDef 1 "side".toList, .render 2 [], .invalidateDef 0 "side".toList, .render 2 []]).trace =
+      ["side of B".toList, "side of C1".toList, "side of C2".toList, "side of B".toList] ∧
+    traceAll exWInherit evOwn (runHist exWInherit
+      [.render 1 [], .render 2 [], .invalidateDef 0 "side".toList, .render 1 []]).trace = true :=
+  ⟨homesOK_of_b _ (by decide +kernel), by decide +kernel, by decide +kernel, by decide +kernel⟩
 
 example : IdsDistinct exWDistinct := by
   intro i j ti tj hi hj hc
